@@ -135,7 +135,8 @@ int poll(struct pollfd *fds, nfds_t n, int timeout)
   a.insert(a.begin() + 1, {arg(e, 0), arg(e, 2)});
   logv(2, a);
   S.now_ns += arg(e, 2);
-  for(nfds_t i = 0; i < n; ++i) fds[i].revents = static_cast<short>(arg(e, 3 + i));
+  // the kernel reports only requested events plus error conditions
+  for(nfds_t i = 0; i < n; ++i) fds[i].revents = static_cast<short>(arg(e, 3 + i) & (fds[i].events | POLLERR | POLLHUP | POLLNVAL));
   if(arg(e, 0) < 0) { errno = static_cast<int>(arg(e, 1)); return -1; }
   return static_cast<int>(arg(e, 0));
 }
@@ -145,9 +146,20 @@ ssize_t send(int fd, const void *buf, size_t len, int flags)
   if(!isv(fd)) return syscall(SYS_sendto, fd, buf, len, flags, nullptr, 0);
   Ev e = pop(3);
   log(3, {fd, static_cast<long long>(len), flags, arg(e, 0)});
-  if(!check(2ull * fd, S.out_pos[fd], static_cast<char const *>(buf), len)) anomaly(1, fd, static_cast<long long>(S.out_pos[fd]));
+  if(S.async_fds.count(fd)) {
+    // asynchronous socket: the front buffer of the expected queue, from its unsent offset, all of it
+    auto &q = S.aq[fd];
+    if(q.empty()) anomaly(5, fd, static_cast<long long>(len));
+    else {
+      auto &f = q.front();
+      if(len != f.size - f.off || !check((3ull << 20) + static_cast<uint64_t>(f.fut), f.off, static_cast<char const *>(buf), len))
+        anomaly(1, fd, f.fut);
+      if(arg(e, 0) < 0) q.pop_front();
+      else if(arg(e, 0) <= static_cast<long long>(len)) { f.off += static_cast<size_t>(arg(e, 0)); if(f.off >= f.size && !(arg(e, 0) == 0 && len > 0)) q.pop_front(); }
+    }
+  } else if(!check(2ull * fd, S.out_pos[fd], static_cast<char const *>(buf), len)) anomaly(1, fd, static_cast<long long>(S.out_pos[fd]));
   if(arg(e, 0) < 0) { errno = static_cast<int>(arg(e, 1)); return -1; }
-  if(arg(e, 0) > static_cast<long long>(len) && !(arg(e, 0) == 0)) stuck(1);
+  if(arg(e, 0) > static_cast<long long>(len)) stuck(1);
   S.out_pos[fd] += static_cast<uint64_t>(arg(e, 0));
   return arg(e, 0);
 }
@@ -172,7 +184,16 @@ ssize_t sendto(int fd, const void *buf, size_t len, int flags, const struct sock
   int port = port_of(addr, alen);
   log(5, {fd, static_cast<long long>(len), port - PORT_BASE_SYM, arg(e, 0)});
   uint64_t k = S.dgram_out[fd]++;
-  if(!check((1ull << 20) + fd, (k << 20), static_cast<char const *>(buf), len)) anomaly(3, fd, static_cast<long long>(k));
+  if(S.opaque_fds.count(fd)) {
+  } else if(S.async_fds.count(fd)) {
+    auto &q = S.aq[fd];
+    if(q.empty()) anomaly(5, fd, static_cast<long long>(len));
+    else {
+      auto f = q.front(); q.pop_front();
+      if(len != f.size || f.dst != port - PORT_BASE_SYM || !check((3ull << 20) + static_cast<uint64_t>(f.fut), 0, static_cast<char const *>(buf), len))
+        anomaly(3, fd, f.fut);
+    }
+  } else if(!check((1ull << 20) + fd, (k << 20), static_cast<char const *>(buf), len)) anomaly(3, fd, static_cast<long long>(k));
   if(flags != 0) anomaly(4, fd, flags);
   if(arg(e, 0) < 0) { errno = static_cast<int>(arg(e, 1)); return -1; }
   return arg(e, 0);
